@@ -88,7 +88,10 @@ func ExtractSimple(c pdf.Cursor, obj pdf.Object, nonSymbolicExt bool) (Simple, e
 	// If we reach this point, we have found an encoding dictionary.
 
 	var baseEnc Simple
-	baseEncName, _ := c.Name(dict["BaseEncoding"])
+	baseEncName, err := c.Name(dict["BaseEncoding"])
+	if pdf.IsReadError(err) {
+		return nil, err
+	}
 	switch baseEncName {
 	case "WinAnsiEncoding":
 		baseEnc = WinAnsi
@@ -105,7 +108,11 @@ func ExtractSimple(c pdf.Cursor, obj pdf.Object, nonSymbolicExt bool) (Simple, e
 	}
 
 	differences := make(map[byte]string)
-	if diffArray, _ := c.Array(dict["Differences"]); diffArray != nil {
+	diffArray, err := c.Array(dict["Differences"])
+	if pdf.IsReadError(err) {
+		return nil, err
+	}
+	if diffArray != nil {
 		currentCode := pdf.Integer(-1)
 		for _, item := range diffArray {
 			item, err = c.Resolve(item)
